@@ -641,9 +641,13 @@ class E6Anim(Engine):
         if sleep_ms is not None:
             lines.append(f"    sleep({sleep_ms})")
         lines.append('    mon.write("T")')
+        world = {"passes": horizon, "gaps": gaps, "boot_us": boot, "dump_lcd": True}
+        if r.random() < 0.1:
+            # the millisecond counter wraps during the run (elapsed-time arithmetic must be modular)
+            world["millis_base"] = 2 ** 64 - r.choice([1, 50, 300, 5000, 100000])
         return {
             "script": HEAD + "\n".join(lines) + "\n",
-            "world": {"passes": horizon, "gaps": gaps, "boot_us": boot, "dump_lcd": True},
+            "world": world,
             "cols": cols, "rows": rows, "anims": anims, "schedule": schedule, "sleep_ms": sleep_ms, "bound": bound,
         }
 
@@ -756,7 +760,7 @@ class E6Anim(Engine):
             st = steps[a["row"]]
             sp = a["speed_ms"]
             for (k1, m1), (k2, m2) in zip(st, st[1:]):
-                if sp > 0 and m1 >= 1 and m2 - m1 < sp:
+                if sp > 0 and m1 >= 1 and (m2 - m1) % 2 ** 64 < sp:
                     return ("rate-limit", f"{a['style']} row {a['row']}: steps at millis {m1} (pass {k1}) and {m2} (pass {k2}) are closer than speed_ms={sp}")
             if not a["loop"] and len(st) > case["bound"]:
                 return ("termination", f"non-looping {a['style']} made {len(st)} steps, bound {case['bound']}")
